@@ -121,6 +121,7 @@ def gen_model(ch: Chooser, benign: bool):
             d["ents"][0]["init"] = l_
             if where != "component":
                 d["parameter"] = True
+                d["no_stmt"] = False        # may be written `parameter (flag = lo == hi)`: only the first `=` separates
         return d
 
     def attrvar(name, where):
